@@ -176,6 +176,9 @@ def frames_alphabet():
     F["empty-token"] = rc.encode_tcp(0, b"\x61\x62", [], b"")
     F["empty-option"] = rc.encode_tcp(0, b"", [(11, b"x")], b"")
     F["empty-payload"] = rc.encode_tcp(0, b"\x63", [], b"padding" * 3)
+    # ... but only if it can be parsed: an Empty message whose option area is broken is an unparsable frame like any other
+    F["empty-bad-nibble"] = bytes([0x10, 0x00, 0xF0])
+    F["empty-opt-past-end"] = bytes([0x37, 0x00]) + b"tokenAB" + bytes([0x15, 0x61, 0x62])
     F["big"] = rc.encode_tcp(1, b"\x71", [(11, b"r")], b"B" * (MAXSIZE))
     F["tkl9"] = bytes([0x09, 0x01]) + b"T" * 9
     F["bad-nibble"] = bytes([0x11, 0x01, 0x72, 0xF1])[:3] + b""    # placeholder, replaced below
@@ -473,8 +476,9 @@ def big_frames(res):
     """Frames that need the four-byte extended length (bodies of 70 kB to 1 MB, all within the local maximum of 1 MiB), cut at
     every position inside their header: where the cut falls makes no difference - the request is dispatched, nothing is aborted."""
     F = frames_alphabet()
-    for n in (65805 + 1, 70000, 140000, 1000000):
-        req = rc.encode_tcp(1, b"\x42", [(11, b"r")], b"B" * n)
+    etag = b"\x01\xff\x02"       # a 0xFF byte inside an option value is not a payload marker
+    for n in (5000, 65805 + 1, 70000, 140000, 1000000):
+        req = rc.encode_tcp(1, b"\x42", [(4, etag), (11, b"r")], b"B" * n)
         stream = F["csm"] + req
         L0 = len(F["csm"])
         for cuts in [[L0 + k] for k in range(1, 9)] + [[L0 + 1, L0 + 2, L0 + 3, L0 + 4, L0 + 5, L0 + 6], [L0 + 2, L0 + 4], [L0 + 3, L0 + 5, len(stream) - 1]]:
@@ -490,7 +494,7 @@ def big_frames(res):
                 res.traces += 1
                 reqs = [d for d in disp if d[0] == "process_request"]
                 aborts = [w_ for w_ in writes if w_[0] == ABORT]
-                if len(reqs) != 1 or aborts or closed or len(reqs[0][4]) != n:
+                if len(reqs) != 1 or aborts or closed or len(reqs[0][4]) != n or (4, etag) not in [(o[0], bytes(o[1])) for o in reqs[0][3]]:
                     res.violate(Violation("frame-processing", "one request of %d payload bytes dispatched, no Abort" % n,
                                           {"dispatched": len(reqs), "aborts": len(aborts), "closed": bool(closed)}, "transports/tcp.py:data_received",
                                           {"big_frame": n, "cuts": [c - L0 for c in cuts]}, key="big-frame"))
